@@ -54,7 +54,7 @@ def gen(g, count, dense):
 
 def run(ctx):
     g = G(ctx.seed)
-    bases = gen(g, 3 if ctx.tier == 'quick' else 12, True)
+    bases = gen(g, 6 if ctx.tier == 'quick' else 12, True)
     impl0 = None
     for c in bases:
         c.id = ctx.fresh()
@@ -94,7 +94,7 @@ def run(ctx):
     # bufio.Writer model vs bufio.Writer
     sinks = []
     r = g.r
-    for _ in range(300 if ctx.tier == 'quick' else 3000):
+    for _ in range(1500 if ctx.tier == 'quick' else 3000):
         size = r.choice([16, 16, 32, 4096])
         chunks = [bytes(r.randrange(97, 123) for _ in range(r.choice([0, 1, 3, 7, size - 1, size, size + 1, 2 * size + 3]) if size <= 32 else r.choice([0, 10, 500, 4095, 4096, 5000, 9000]))) for _ in range(r.randint(0, 6))]
         total = sum(len(c) for c in chunks)
